@@ -497,7 +497,6 @@ func fetch(input OmegaInput) (output OmegaOutput) {
 	}
 	// need to first check writable
 	if !isWriteable(o, l, *input.VM.Memory) && v != nil {
-		input.VM.Registers[7] = OOB
 		return OmegaOutput{
 			ExitReason: ExitPanic,
 			Addition:   input.Addition,
@@ -541,7 +540,6 @@ func lookup(input OmegaInput) (output OmegaOutput) {
 
 	h, o := input.VM.Registers[8], input.VM.Registers[9]
 	if !isReadable(h, 32, *input.VM.Memory) {
-		input.VM.Registers[7] = OOB
 		return OmegaOutput{
 			ExitReason: ExitPanic,
 			Addition:   input.Addition,
@@ -565,7 +563,6 @@ func lookup(input OmegaInput) (output OmegaOutput) {
 	}
 
 	if !isWriteable(o, l, *input.VM.Memory) && l != 0 {
-		input.VM.Registers[7] = OOB
 		return OmegaOutput{
 			ExitReason: ExitPanic,
 			Addition:   input.Addition,
@@ -618,7 +615,6 @@ func read(input OmegaInput) (output OmegaOutput) {
 	// since v = panic is the first condition to check
 	ko, kz, o := input.VM.Registers[8], input.VM.Registers[9], input.VM.Registers[10]
 	if !isReadable(ko, kz, *input.VM.Memory) {
-		input.VM.Registers[7] = OOB
 		return OmegaOutput{
 			ExitReason: ExitPanic,
 			Addition:   input.Addition,
@@ -684,7 +680,6 @@ func read(input OmegaInput) (output OmegaOutput) {
 
 	// first check not writable, then check v = nil (not exists)
 	if !isWriteable(o, l, *input.VM.Memory) {
-		input.VM.Registers[7] = OOB
 		return OmegaOutput{
 			ExitReason: ExitPanic,
 			Addition:   input.Addition,
@@ -708,7 +703,6 @@ func write(input OmegaInput) (output OmegaOutput) {
 
 	ko, kz, vo, vz := input.VM.Registers[7], input.VM.Registers[8], input.VM.Registers[9], input.VM.Registers[10]
 	if !isReadable(ko, kz, *input.VM.Memory) {
-		input.VM.Registers[7] = OOB
 		return OmegaOutput{
 			ExitReason: ExitPanic,
 			Addition:   input.Addition,
@@ -854,7 +848,6 @@ func info(input OmegaInput) (output OmegaOutput) {
 	}
 	// if mathbf{N}_{o..._l} \not in mathbf{V}^*_mu
 	if !isWriteable(o, l, *input.VM.Memory) { // v = ∇ not defined
-		input.VM.Registers[7] = OOB
 		return OmegaOutput{
 			ExitReason: ExitPanic,
 			Addition:   input.Addition,
